@@ -77,6 +77,10 @@ pub enum Variation {
     /// consume until at least m items were delivered, drop, resume with fast_forward;
     /// ff = None: the number of delivered items; ranks: world of the crashed/resumed job
     Crash { m: usize, ff: Option<usize>, ranks: Vec<(u8, usize)> },
+    /// what a training script does every epoch: `iter(loader)` again on the same loader after m
+    /// delivered items (the old iterator is abandoned, its threads are still winding down while
+    /// the new ones start); the new stream must be the stream of a fresh loader
+    Reiterate { m: usize, t: u8, b: usize },
 }
 
 #[derive(Serialize, Deserialize, Clone, Debug)]
@@ -207,6 +211,8 @@ struct Inst {
     ff: usize,
     /// stop after at least this many items were delivered and drop the loader (crash)
     crash_after: Option<usize>,
+    /// call iter() again after at least this many delivered items and report only the second stream
+    reiterate_after: Option<usize>,
 }
 
 #[derive(Clone, Debug)]
@@ -435,6 +441,10 @@ impl Scenario for C08 {
             let (t, b) = gen_tb(&mut rng);
             variations.push(Variation::Same { t, b });
         }
+        if rng.chance(0.25) {
+            let (t, b) = gen_tb(&mut rng);
+            variations.push(Variation::Reiterate { m: rng.usize(0, total), t, b });
+        }
         let weighted_ok = files.iter().all(|f| !f.is_empty());
         let strategy = match rng.below(3) {
             2 if weighted_ok => 2,
@@ -487,6 +497,7 @@ impl Scenario for C08 {
                 .iter()
                 .map(|v| match v {
                     Variation::World { ranks } | Variation::Crash { ranks, .. } => ranks.len() as u64,
+                    Variation::Reiterate { m, .. } => 1 + (*m > 0) as u64,
                     _ => 1,
                 })
                 .sum::<u64>()
@@ -653,7 +664,7 @@ impl Scenario for C08 {
                     }
                 };
                 match &mut c.variations[vi] {
-                    Variation::Same { t, b } => {
+                    Variation::Same { t, b } | Variation::Reiterate { t, b, .. } => {
                         let mut tb = (*t, *b);
                         z(&mut tb);
                         *t = tb.0;
@@ -745,6 +756,7 @@ impl C08 {
             distributed: None,
             ff: 0,
             crash_after: None,
+            reiterate_after: None,
         }
     }
 }
@@ -798,6 +810,7 @@ impl Exec<'_> {
         let epoch = sc.epoch;
         let ff = inst.ff;
         let crash_after = inst.crash_after;
+        let reiterate_after = inst.reiterate_after;
         type Slot = Arc<Mutex<(Vec<Vec<String>>, Option<String>)>>;
         let slot: Slot = Arc::new(Mutex::new((vec![], None)));
         let slot2 = slot.clone();
@@ -814,6 +827,20 @@ impl Exec<'_> {
             if let Err(e) = drv.iter() {
                 slot2.lock().unwrap().1 = Some(format!("iter: {e:#}"));
                 return;
+            }
+            if let Some(m) = reiterate_after {
+                let mut seen = 0usize;
+                while seen < m {
+                    match drv.next_batch() {
+                        Ok(Some(items)) => seen += items.len(),
+                        _ => break,
+                    }
+                }
+                rt::log(Kind::Fault, 6, seen as u64);
+                if let Err(e) = drv.iter() {
+                    slot2.lock().unwrap().1 = Some(format!("second iter: {e:#}"));
+                    return;
+                }
             }
             let mut delivered = 0usize;
             let mut bno = 0u64;
@@ -847,10 +874,14 @@ impl Exec<'_> {
             rt::wait_threads_exit();
         });
         self.stats.absorb_proc(&r);
+        self.stats.probe_max("max_decisions_in_one_run", r.decisions);
         self.stats.probe("os_entropy_requests_served_from_the_run_seed", r.entropy_calls);
         self.stats.fault("fresh_process_entropy");
         if inst.crash_after.is_some() {
             self.stats.fault("crash_drop_mid_epoch");
+        }
+        if inst.reiterate_after.is_some() {
+            self.stats.fault("iterator_abandoned_by_a_second_iter_call");
         }
         if inst.ff > 0 {
             self.stats.fault("restart_with_fast_forward");
@@ -1008,6 +1039,24 @@ impl Exec<'_> {
                         return Some(diff_batches("repro", &format!("R0(T={},B={})", sc.t0, sc.b0), &r0, &i.label, &o));
                     }
                     self.stats.probe("identical_streams_confirmed", 1);
+                }
+                Variation::Reiterate { m, t, b } => {
+                    let mut i = base.clone();
+                    i.label = format!("second iter() after {m} items (T={t},B={b})");
+                    i.t = *t;
+                    i.b = *b;
+                    i.reiterate_after = Some(*m);
+                    let o = self.run(&i);
+                    if let Some(x) = self.ended_ok(&i, &o) {
+                        return Some(x);
+                    }
+                    if self.diverged {
+                        return None;
+                    }
+                    if o.batches != r0.batches {
+                        return Some(diff_batches("reiterate", "R0", &r0, &i.label, &o));
+                    }
+                    self.stats.probe("second_iter_streams_confirmed", 1);
                 }
                 Variation::World { ranks } => {
                     let ws = ranks.len();
